@@ -246,3 +246,62 @@ func VerifC05BatchLifecycle() {
 		}
 	}
 }
+
+// VerifC05IncreaseFee: MsgIncreaseBridgeFee on a pooled transfer, paid by its creator or by
+// somebody else, in bridge-denomination coins. Raising the fee costs the payer exactly the added
+// fee; the transfer keeps its id, creator, destination, token and amount, its fee grows by
+// exactly the added fee and it is still in exactly one place; nobody else's balance moves; a
+// refused request (unknown id, payer cannot pay) changes nothing.
+func VerifC05IncreaseFee() {
+	e := verifBridgeState()
+	module := models.ModuleAddress(verifModule)
+	amount := verifAmt("amount", 64)
+	rt.Assume(amount.IsPositive())
+	fee := verifSmallFee("fee")
+	e.bank.SetBalance(verifUser1, verifBase, amount.Add(fee))
+	e.bank.SetBalance(module, e.bridgeDenom, amount.Add(fee))
+	e.store().Set(types.KeyLastTxPoolID, sdk.Uint64ToBigEndian(1))
+	id, err := e.k.AddToOutgoingPool(e.ctx, verifUser1, verifAddrB, sdk.NewCoin(verifBase, amount), sdk.NewCoin(verifBase, fee))
+	if err != nil {
+		rt.Assert(false, "harness: cannot queue the transfer")
+		return
+	}
+	payer := verifUser1
+	if rt.Bool("paidBySomebodyElse") {
+		payer = verifUser2
+	}
+	wallet := verifSmallFee("payer.bridgeCoins")
+	e.bank.SetBalance(payer, e.bridgeDenom, wallet)
+	add := verifSmallFee("addedFee")
+	target := id
+	if rt.Bool("unknownId") {
+		target = 9
+	}
+	rt.Cover("state-built")
+	before := e.ms.Snapshot()
+	user1Base := e.bank.Balance(verifUser1, verifBase)
+	_, err = MsgServer{Keeper: e.k}.IncreaseBridgeFee(e.ctx, &types.MsgIncreaseBridgeFee{ChainName: verifModule, TransactionId: target, Sender: payer.String(), AddBridgeFee: sdk.NewCoin(e.bridgeDenom, add)})
+	if err != nil {
+		rt.Cover("refused")
+		rt.Assert(rt.Or(target != id, add.IsZero(), wallet.LT(add)), "a fee increase the payer can afford on a pooled transfer is not refused")
+		rt.Assert(e.ms.Equal(before), "a refused fee increase changes nothing")
+		return
+	}
+	rt.Cover("raised")
+	rt.Assert(rt.And(target == id, add.IsPositive(), wallet.GTE(add)), "a fee increase takes effect only on an existing pooled transfer, for a positive amount the payer holds")
+	rt.Assert(e.bank.Balance(payer, e.bridgeDenom).Equal(wallet.Sub(add)), "raising the fee costs the payer exactly the added fee")
+	rt.Assert(e.bank.Balance(verifUser1, verifBase).Equal(user1Base), "the creator's other holdings are untouched")
+	rt.Assert(e.where(id) == 1, "the transfer is still in exactly one place")
+	tx, gerr := e.k.GetUnbatchedTxById(e.ctx, id)
+	if gerr == nil {
+		rt.Assert(rt.And(tx.Id == id, tx.Sender == verifUser1.String(), tx.DestAddress == verifAddrB, tx.Token.Contract == verifTokenA, tx.Token.Amount.Equal(amount)), "id, creator, destination, token and amount are unchanged")
+		rt.Assert(rt.And(tx.Fee.Contract == verifTokenA, tx.Fee.Amount.Equal(fee.Add(add))), "the fee grew by exactly the added fee")
+	}
+	n := 0
+	for _, p := range e.k.GetUnbatchedTransactions(e.ctx) {
+		if p.Id == id {
+			n++
+		}
+	}
+	rt.Assert(n == 1, "the pool holds the transfer exactly once (no stale entry under the old fee)")
+}
